@@ -27,6 +27,17 @@ def run(tier, seed):
                 ks = [0] * n
                 ks[pos] = k
                 add(ks)
+        # a special kind (non-G1, malformed, short, identity key) next to an in-G1 invalid entry: the top-down
+        # search descends to the special leaf (its subtree is invalid), which must keep its pre-marked verdict
+        for i, j in itertools.permutations(range(n), 2):
+            for k in ((2, 3, 4, 5) if (thorough or n <= 3) else (3,)):
+                ks = [0] * n
+                ks[i], ks[j] = 1, k
+                add(ks)
+        if n >= 3:
+            ks = [1] * n
+            ks[n - 1] = 3
+            add(ks)
         # correlated errors that cancel in a sum: every pair of positions
         for i, j in itertools.combinations(range(n), 2):
             ks = [0] * n
